@@ -94,6 +94,7 @@ func dests() []dest {
 		ds = append(ds, dest{"name " + n, 3, dom(n), "local-name"})
 	}
 	ds = append(ds, dest{"name example.com.", 3, dom("example.com."), "public"})
+	ds = append(ds, dest{"name SUB.BLOCKED.EXAMPLE", 3, dom("SUB.BLOCKED.EXAMPLE"), "public"}, dest{"name Example.Com", 3, dom("Example.Com"), "public"}, dest{"name sub.blocked.example.", 3, dom("sub.blocked.example."), "public"})
 	ds = append(ds, dest{"name example.com", 3, dom("example.com"), "public"}, dest{"name sub.blocked.example", 3, dom("sub.blocked.example"), "public"}, dest{"name localhost.example.com", 3, dom("localhost.example.com"), "public"})
 	return ds
 }
@@ -281,8 +282,11 @@ func firstMatch(d dest, rs []rule) appctlpb.EgressAction {
 				}
 			}
 		} else if len(d.raw) > 1 {
-			name := string(d.raw[1:])
+			// a rule names a DNS suffix (docs/server-install.md); DNS names compare without regard to
+			// letter case, and a trailing dot does not change the host a name refers to
+			name := strings.ToLower(strings.TrimSuffix(string(d.raw[1:]), "."))
 			for _, dn := range r.r.GetDomainNames() {
+				dn = strings.ToLower(strings.TrimSuffix(dn, "."))
 				if dn == "*" || name == dn || strings.HasSuffix(name, "."+dn) {
 					return r.r.GetAction()
 				}
@@ -399,7 +403,7 @@ func units(tier string) []runner.Unit {
 			i := 0
 			pick := []int{}
 			for k, d := range ds {
-				if strings.Contains(d.name, "10.1.2.3") || d.name == "v4 93.184.216.34" || d.name == "name example.com" || d.name == "name sub.blocked.example" || d.name == "v4 127.0.0.1" || d.name == "name localhost" || d.name == "v6 fc00::1" || d.name == "v4 192.168.0.1" {
+				if strings.Contains(d.name, "10.1.2.3") || d.name == "v4 93.184.216.34" || d.name == "name example.com" || d.name == "name sub.blocked.example" || d.name == "name SUB.BLOCKED.EXAMPLE" || d.name == "name Example.Com" || d.name == "name sub.blocked.example." || d.name == "name example.com." || d.name == "v4 127.0.0.1" || d.name == "name localhost" || d.name == "v6 fc00::1" || d.name == "v4 192.168.0.1" {
 					pick = append(pick, k)
 				}
 			}
